@@ -291,6 +291,11 @@ def build_enforcer(cfg, fail_after=None):
         if ad is not None:
             run_async(e.load_policy())
             ad.log.clear()
+        else:
+            for sec in ("p", "g", "g2"):
+                for r in cfg.initial.get(sec, []):
+                    e.model.model[sec[0]][sec].policy.append(list(r))
+            e.build_role_links()
     else:
         m = casbin.Enforcer.new_model(text=TEXT[cfg.shape])
         if ad is None:
